@@ -3,7 +3,7 @@
 # compiles, pinned suite passes, demo fails with the change and passes without. Prints a summary line.
 set -u
 export GOFLAGS=-mod=mod GOPROXY=off GOSUMDB=off GOTOOLCHAIN=local
-id="$1"; v="$2"; src="/tmp/seed/out/$id/$v"; wt="/tmp/seedconfirm-wt-$id-$v"
+id="$1"; v="$2"; src="${SEEDDIR:-/tmp/seed/out}/$id/$v"; wt="/tmp/seedconfirm-wt-$id-$v"
 git -C /repo worktree add -q --detach "$wt" HEAD || exit 2
 cleanup() { git -C /repo worktree remove --force "$wt" >/dev/null 2>&1; }
 trap cleanup EXIT
